@@ -73,6 +73,40 @@ func init() {
 		}
 	}
 	builtinModels["sort.Sort"] = modelSortSort
+	builtinModels["bytes.Equal"] = func(fc *FnCtx, c *ssa.CallCommon, args []Val, rt types.Type) (*Val, error) {
+		if args[0].ArrView != "" && args[1].ArrView != "" {
+			n := fc.vc.fresh("byteseq", "Bool")
+			fc.vc.assert(mkEq(n, mkEq(args[0].ArrView, args[1].ArrView)))
+			return &Val{T: n, S: SBool, Typ: rt}, nil
+		}
+		v := fc.symbolic("byteseq", rt)
+		return &v, nil
+	}
+	builtinModels["(*sync/atomic.Value).Load"] = func(fc *FnCtx, c *ssa.CallCommon, args []Val, rt types.Type) (*Val, error) {
+		l, err := fc.derefLoc(args[0])
+		if err != nil {
+			return nil, err
+		}
+		cur, err := fc.load(l)
+		if err != nil {
+			return nil, err
+		}
+		dt := string(cur.S)
+		return &Val{T: "(" + dt + ".val " + cur.T + ")", S: SInt, Typ: rt}, nil
+	}
+	builtinModels["(*sync/atomic.Value).Store"] = func(fc *FnCtx, c *ssa.CallCommon, args []Val, rt types.Type) (*Val, error) {
+		l, err := fc.derefLoc(args[0])
+		if err != nil {
+			return nil, err
+		}
+		cur, err := fc.load(l)
+		if err != nil {
+			return nil, err
+		}
+		dt := string(cur.S)
+		return nil, fc.store(l, Val{T: "(mk." + dt + " " + args[1].T + ")", S: cur.S, Typ: l.Typ})
+	}
+	builtinMods["(*sync/atomic.Value).Store"] = []string{"*"}
 }
 
 func modelOpaque(fc *FnCtx, c *ssa.CallCommon, args []Val, rt types.Type) (*Val, error) {
